@@ -1,6 +1,491 @@
 package main
 
-// extractFacts: facts about codec/*.go and package-level state (filled in step by step).
-func extractFacts(root string) map[string]any {
-	return map[string]any{}
+import (
+	"go/ast"
+	"go/parser"
+	"go/token"
+	"os"
+	"path/filepath"
+	"sort"
+	"strings"
+)
+
+// Facts about the hand-written library (codec/*.go) and about package-level state of all packages.
+// These are NOT a translation: they are the syntactic conditions some theorems are conditioned on.
+// A function whose shape is not recognised yields "unknown" (left to the correspondence check).
+
+type FuncFacts struct {
+	Orders     []string `json:"orders"`      // binary.BigEndian / binary.LittleEndian identifiers used
+	Callees    []string `json:"callees"`     // package-level functions called
+	Makes      []string `json:"makes"`       // each make(): "guarded:<how>" | "constant" | "unknown:<src>"
+	LenConv    []string `json:"len_conv"`    // unchecked narrowing conversions T(len(x)) that remain
+	BufViews   []string `json:"buf_views"`   // buf.Bytes() / buf.Next() uses
+	TrimCalls  []string `json:"trim_calls"`  // bytes.Trim* calls
+	UsesGlobal []string `json:"uses_global"` // package-level variables mentioned
+}
+
+type GlobalWrite struct {
+	Func string `json:"func"`
+	Src  string `json:"src"`
+}
+
+type GlobalVar struct {
+	Pkg    string        `json:"pkg"`
+	Name   string        `json:"name"`
+	Writes []GlobalWrite `json:"writes"`
+}
+
+type Facts struct {
+	Codec     map[string]*FuncFacts `json:"codec"`
+	LockProgs map[string][]string   `json:"lock_progs"` // registry functions: micro-operations in order
+	CalcFacts map[string][]string   `json:"calc"`       // per Calc method: calls made on its argument
+	Algs      map[string]string     `json:"algorithms"` // service type -> Algorithm() literal
+	InitRegs  []string              `json:"init_registrations"`
+	Imports   map[string][]string   `json:"imports"` // pkg -> imported paths (non-test files)
+	Globals   []GlobalVar           `json:"globals"`
+	Callers   map[string][]string   `json:"callers_of_mutators"` // mutator function -> functions that call it
+	GoStmts   []string              `json:"go_statements"`       // `go` statements / sync.Pool uses in non-test code
+}
+
+func parseDir(dir string) []*ast.File {
+	files, _ := filepath.Glob(filepath.Join(dir, "*.go"))
+	sort.Strings(files)
+	var out []*ast.File
+	for _, f := range files {
+		if strings.HasSuffix(f, "_test.go") {
+			continue
+		}
+		af, err := parser.ParseFile(fset, f, nil, parser.SkipObjectResolution)
+		if err == nil {
+			out = append(out, af)
+		}
+	}
+	return out
+}
+
+func add(l *[]string, s string) {
+	for _, x := range *l {
+		if x == s {
+			return
+		}
+	}
+	*l = append(*l, s)
+}
+
+func extractFacts(root string) *Facts {
+	fx := &Facts{Codec: map[string]*FuncFacts{}, LockProgs: map[string][]string{}, CalcFacts: map[string][]string{}, Algs: map[string]string{},
+		Imports: map[string][]string{}, Callers: map[string][]string{}}
+	dirs := map[string]string{"codec": "codec"}
+	for _, p := range pkgs {
+		dirs[p.short] = p.dir
+	}
+	names := make([]string, 0, len(dirs))
+	for k := range dirs {
+		names = append(names, k)
+	}
+	sort.Strings(names)
+	for _, pk := range names {
+		files := parseDir(filepath.Join(root, dirs[pk]))
+		// package-level variables
+		globals := map[string]*GlobalVar{}
+		for _, af := range files {
+			for _, im := range af.Imports {
+				add2(fx.Imports, pk, strings.Trim(im.Path.Value, `"`))
+			}
+			for _, d := range af.Decls {
+				if gd, ok := d.(*ast.GenDecl); ok && gd.Tok == token.VAR {
+					for _, s := range gd.Specs {
+						for _, n := range s.(*ast.ValueSpec).Names {
+							globals[n.Name] = &GlobalVar{Pkg: pk, Name: n.Name, Writes: []GlobalWrite{}}
+						}
+					}
+				}
+			}
+		}
+		for _, af := range files {
+			for _, d := range af.Decls {
+				fd, ok := d.(*ast.FuncDecl)
+				if !ok || fd.Body == nil {
+					continue
+				}
+				fname := fd.Name.Name
+				if fd.Recv != nil {
+					fname = strings.TrimPrefix(typeStr(fd.Recv.List[0].Type), "*") + "." + fname
+				}
+				// writes to package-level variables
+				rootIdent := func(e ast.Expr) string {
+					for {
+						switch x := e.(type) {
+						case *ast.Ident:
+							return x.Name
+						case *ast.SelectorExpr:
+							e = x.X
+						case *ast.IndexExpr:
+							e = x.X
+						case *ast.StarExpr:
+							e = x.X
+						case *ast.ParenExpr:
+							e = x.X
+						default:
+							return ""
+						}
+					}
+				}
+				local := map[string]bool{}
+				ast.Inspect(fd, func(n ast.Node) bool {
+					switch x := n.(type) {
+					case *ast.AssignStmt:
+						if x.Tok == token.DEFINE {
+							for _, l := range x.Lhs {
+								if id, ok := l.(*ast.Ident); ok {
+									local[id.Name] = true
+								}
+							}
+						}
+					case *ast.Field:
+						for _, nm := range x.Names {
+							local[nm.Name] = true
+						}
+					case *ast.ValueSpec:
+						for _, nm := range x.Names {
+							local[nm.Name] = true
+						}
+					case *ast.RangeStmt:
+						if id, ok := x.Key.(*ast.Ident); ok {
+							local[id.Name] = true
+						}
+						if id, ok := x.Value.(*ast.Ident); ok {
+							local[id.Name] = true
+						}
+					}
+					return true
+				})
+				ast.Inspect(fd.Body, func(n ast.Node) bool {
+					rec := func(e ast.Expr, src ast.Node) {
+						r := rootIdent(e)
+						if g, ok := globals[r]; ok && !local[r] {
+							g.Writes = append(g.Writes, GlobalWrite{fname, src2(src)})
+						}
+					}
+					switch x := n.(type) {
+					case *ast.AssignStmt:
+						if x.Tok != token.DEFINE {
+							for _, l := range x.Lhs {
+								rec(l, x)
+							}
+						}
+					case *ast.IncDecStmt:
+						rec(x.X, x)
+					case *ast.CallExpr:
+						if id, ok := x.Fun.(*ast.Ident); ok && (id.Name == "delete" || id.Name == "clear" || id.Name == "copy" || id.Name == "append") && len(x.Args) > 0 {
+							if id.Name != "append" {
+								rec(x.Args[0], x)
+							}
+						}
+						// mutating methods on a package-level value (Lock/Unlock are synchronisation, listed as writes too)
+						if sel, ok := x.Fun.(*ast.SelectorExpr); ok {
+							switch sel.Sel.Name {
+							case "Store", "Swap", "CompareAndSwap", "Add", "Put", "Reset", "Write", "WriteString", "Grow", "Truncate":
+								rec(sel.X, x)
+							}
+						}
+					case *ast.UnaryExpr:
+						if x.Op == token.AND {
+							if r := rootIdent(x.X); r != "" {
+								if _, ok := globals[r]; ok && !local[r] {
+									if _, isLit := x.X.(*ast.CompositeLit); !isLit {
+										globals[r].Writes = append(globals[r].Writes, GlobalWrite{fname, "address taken: " + src2(x)})
+									}
+								}
+							}
+						}
+					case *ast.GoStmt:
+						fx.GoStmts = append(fx.GoStmts, pk+"."+fname+": "+src(x))
+					case *ast.SelectorExpr:
+						if id, ok := x.X.(*ast.Ident); ok && id.Name == "sync" && x.Sel.Name == "Pool" {
+							fx.GoStmts = append(fx.GoStmts, pk+"."+fname+": sync.Pool")
+						}
+					}
+					return true
+				})
+				// callers of table / registry mutators
+				ast.Inspect(fd.Body, func(n ast.Node) bool {
+					if c, ok := n.(*ast.CallExpr); ok {
+						name := ""
+						switch f := c.Fun.(type) {
+						case *ast.Ident:
+							name = f.Name
+						case *ast.SelectorExpr:
+							if id, ok := f.X.(*ast.Ident); ok && id.Name == "codec" {
+								name = "codec." + f.Sel.Name
+							}
+						}
+						if strings.HasPrefix(name, "Registry") || name == "codec.Registry" || name == "codec.Remove" || name == "codec.Clear" ||
+							(pk == "codec" && (name == "Remove" || name == "Clear")) {
+							key := pk + "." + name
+							add2(fx.Callers, key, pk+"."+fname)
+						}
+					}
+					return true
+				})
+				if pk == "codec" {
+					codecFuncFacts(fx, fd, fname, globals, local)
+				}
+			}
+		}
+		gl := make([]string, 0, len(globals))
+		for k := range globals {
+			gl = append(gl, k)
+		}
+		sort.Strings(gl)
+		for _, k := range gl {
+			fx.Globals = append(fx.Globals, *globals[k])
+		}
+	}
+	_ = os.Stderr
+	return fx
+}
+
+func add2(m map[string][]string, k, v string) {
+	l := m[k]
+	add(&l, v)
+	m[k] = l
+}
+
+func codecFuncFacts(fx *Facts, fd *ast.FuncDecl, fname string, globals map[string]*GlobalVar, local map[string]bool) {
+	ff := &FuncFacts{Orders: []string{}, Callees: []string{}, Makes: []string{}, LenConv: []string{}, BufViews: []string{}, TrimCalls: []string{}, UsesGlobal: []string{}}
+	fx.Codec[fname] = ff
+	params := map[string]bool{}
+	if fd.Type.Params != nil {
+		for _, f := range fd.Type.Params.List {
+			for _, n := range f.Names {
+				params[n.Name] = true
+			}
+		}
+	}
+	// guards of the form `if X > buf.Len() { return … }` seen so far, per variable
+	guarded := map[string]bool{}
+	var walk func(stmts []ast.Stmt)
+	inspectExpr := func(n ast.Node) {
+		ast.Inspect(n, func(n ast.Node) bool {
+			switch x := n.(type) {
+			case *ast.SelectorExpr:
+				if id, ok := x.X.(*ast.Ident); ok && id.Name == "binary" && (x.Sel.Name == "BigEndian" || x.Sel.Name == "LittleEndian") {
+					add(&ff.Orders, x.Sel.Name)
+				}
+				if id, ok := x.X.(*ast.Ident); ok && id.Name == "buf" && (x.Sel.Name == "Bytes" || x.Sel.Name == "Next" || x.Sel.Name == "Available" || x.Sel.Name == "AvailableBuffer" || x.Sel.Name == "Cap") {
+					add(&ff.BufViews, "buf."+x.Sel.Name)
+				}
+				if id, ok := x.X.(*ast.Ident); ok && id.Name == "data" && fd.Name.Name == "Calc" {
+					add2(fx.CalcFacts, fname, "data."+x.Sel.Name)
+				}
+				if id, ok := x.X.(*ast.Ident); ok && id.Name == "bytes" && strings.HasPrefix(x.Sel.Name, "Trim") {
+					add(&ff.TrimCalls, "bytes."+x.Sel.Name)
+				}
+				if id, ok := x.X.(*ast.Ident); ok && id.Name == "unsafe" {
+					add(&ff.BufViews, "unsafe."+x.Sel.Name)
+				}
+			case *ast.Ident:
+				if _, ok := globals[x.Name]; ok && !local[x.Name] {
+					add(&ff.UsesGlobal, x.Name)
+				}
+			case *ast.CallExpr:
+				fun := x.Fun
+				if ix, ok := fun.(*ast.IndexExpr); ok {
+					fun = ix.X
+				}
+				if ix, ok := fun.(*ast.IndexListExpr); ok {
+					fun = ix.X
+				}
+				if id, ok := fun.(*ast.Ident); ok {
+					switch id.Name {
+					case "make":
+						ff.Makes = append(ff.Makes, classifyMake(x, params, guarded))
+					case "T", "K":
+						if len(x.Args) == 1 && strings.HasPrefix(src(x.Args[0]), "len(") {
+							ff.LenConv = append(ff.LenConv, src(x))
+						}
+					case "len", "int", "string", "byte", "append", "min", "uint64", "rune", "new", "cap", "copy", "panic", "max":
+					default:
+						if id.Obj == nil && !local[id.Name] || true {
+							if !local[id.Name] {
+								add(&ff.Callees, id.Name)
+							}
+						}
+					}
+				}
+			}
+			return true
+		})
+	}
+	walk = func(stmts []ast.Stmt) {
+		for _, s := range stmts {
+			// record guards before inspecting later statements
+			if is, ok := s.(*ast.IfStmt); ok && is.Init == nil {
+				if b, ok := is.Cond.(*ast.BinaryExpr); ok && b.Op == token.GTR && src(b.Y) == "buf.Len()" {
+					if id, ok := b.X.(*ast.Ident); ok && len(is.Body.List) == 1 {
+						if _, isRet := is.Body.List[0].(*ast.ReturnStmt); isRet {
+							guarded[id.Name] = true
+						}
+					}
+				}
+			}
+			switch x := s.(type) {
+			case *ast.ForStmt:
+				if x.Init != nil {
+					inspectExpr(x.Init)
+				}
+				if x.Cond != nil {
+					inspectExpr(x.Cond)
+				}
+				if x.Post != nil {
+					inspectExpr(x.Post)
+				}
+				walk(x.Body.List)
+			case *ast.RangeStmt:
+				inspectExpr(x.X)
+				walk(x.Body.List)
+			case *ast.IfStmt:
+				if x.Init != nil {
+					inspectExpr(x.Init)
+				}
+				inspectExpr(x.Cond)
+				walk(x.Body.List)
+				if eb, ok := x.Else.(*ast.BlockStmt); ok {
+					walk(eb.List)
+				} else if x.Else != nil {
+					walk([]ast.Stmt{x.Else})
+				}
+			case *ast.BlockStmt:
+				walk(x.List)
+			default:
+				inspectExpr(s)
+			}
+		}
+	}
+	walk(fd.Body.List)
+	sort.Strings(ff.Orders)
+	sort.Strings(ff.Callees)
+
+	// registry lock programs and services
+	switch fname {
+	case "Registry", "Get", "Remove", "Clear":
+		fx.LockProgs[fname] = lockProgram(fd)
+	}
+	if fd.Name.Name == "Algorithm" && fd.Recv != nil && len(fd.Body.List) == 1 {
+		if r, ok := fd.Body.List[0].(*ast.ReturnStmt); ok && len(r.Results) == 1 {
+			if bl, ok := r.Results[0].(*ast.BasicLit); ok {
+				fx.Algs[strings.TrimPrefix(typeStr(fd.Recv.List[0].Type), "*")] = strings.Trim(bl.Value, `"`)
+			}
+		}
+	}
+	if fd.Name.Name == "init" && fd.Recv == nil {
+		for _, s := range fd.Body.List {
+			fx.InitRegs = append(fx.InitRegs, src(s))
+		}
+	}
+}
+
+func classifyMake(c *ast.CallExpr, params map[string]bool, guarded map[string]bool) string {
+	if len(c.Args) < 2 {
+		return "constant"
+	}
+	size := c.Args[len(c.Args)-1] // length, or capacity when both are given
+	if len(c.Args) == 3 {
+		if s := src(c.Args[1]); s != "0" {
+			return "unknown:" + src(c)
+		}
+	}
+	switch x := size.(type) {
+	case *ast.BasicLit:
+		return "constant"
+	case *ast.Ident:
+		if params[x.Name] {
+			return "constant" // a width fixed by the caller's code, not read from the wire
+		}
+		if guarded[x.Name] {
+			return "guarded:if " + x.Name + " > buf.Len()"
+		}
+		return "unguarded:" + src(c)
+	case *ast.CallExpr:
+		if id, ok := x.Fun.(*ast.Ident); ok && id.Name == "min" && len(x.Args) == 2 {
+			a, b := src(x.Args[0]), src(x.Args[1])
+			if a == "buf.Len()" || b == "buf.Len()" {
+				return "guarded:min(" + a + ", " + b + ")"
+			}
+		}
+	}
+	return "unknown:" + src(c)
+}
+
+// lockProgram: the synchronisation and map micro-operations of a registry function, in source order
+func lockProgram(fd *ast.FuncDecl) []string {
+	var prog []string
+	var walk func(n ast.Node, deferred bool)
+	emitCall := func(c *ast.CallExpr, deferred bool) bool {
+		s := src(c)
+		pre := ""
+		if deferred {
+			pre = "defer "
+		}
+		switch {
+		case strings.HasSuffix(s, ".mu.Lock()"):
+			prog = append(prog, pre+"Lock")
+		case strings.HasSuffix(s, ".mu.Unlock()"):
+			prog = append(prog, pre+"Unlock")
+		case strings.HasSuffix(s, ".mu.RLock()"):
+			prog = append(prog, pre+"RLock")
+		case strings.HasSuffix(s, ".mu.RUnlock()"):
+			prog = append(prog, pre+"RUnlock")
+		case strings.HasPrefix(s, "delete(") && strings.Contains(s, ".cache"):
+			prog = append(prog, "map-delete")
+		default:
+			return false
+		}
+		return true
+	}
+	walk = func(n ast.Node, deferred bool) {
+		ast.Inspect(n, func(n ast.Node) bool {
+			switch x := n.(type) {
+			case *ast.DeferStmt:
+				if !emitCall(x.Call, true) {
+					prog = append(prog, "defer ?"+src(x.Call))
+				}
+				return false
+			case *ast.GoStmt:
+				prog = append(prog, "go ?"+src(x.Call))
+				return false
+			case *ast.CallExpr:
+				if emitCall(x, false) {
+					return false
+				}
+			case *ast.AssignStmt:
+				for _, r := range x.Rhs {
+					walk(r, false)
+				}
+				for _, l := range x.Lhs {
+					ls := src(l)
+					if strings.Contains(ls, ".cache[") {
+						prog = append(prog, "map-store")
+					} else if strings.HasSuffix(ls, ".cache") && x.Tok == token.ASSIGN {
+						prog = append(prog, "map-replace")
+					}
+				}
+				return false
+			case *ast.IndexExpr:
+				if strings.HasSuffix(src(x.X), ".cache") {
+					prog = append(prog, "map-load")
+				}
+			case *ast.ReturnStmt:
+				for _, r := range x.Results {
+					walk(r, false)
+				}
+				prog = append(prog, "return")
+				return false
+			}
+			return true
+		})
+	}
+	walk(fd.Body, false)
+	return prog
 }
